@@ -132,13 +132,22 @@ def requires(qual):
     return _reg("requires", qual)
 
 
-def ensures(qual, static_only=False):
+def ensures(qual, static_only=False, uses=(), assumed=None, export=True):
     """static_only: the clause talks about ghost state of assumed library models (spline source, call records) that does
     not exist at run time; it is discharged by the verifier but skipped by the run-time monitor"""
     def deco(fn):
         _reg("ensures", qual)(fn)
         if static_only:
             _c(qual).opts.setdefault("static_only", set()).add(fn.__name__)
+        if uses:
+            _c(qual).opts.setdefault("uses", {})[fn.__name__] = list(uses)
+        if not export:
+            # proved for the function itself, but not handed to callers (keeps the callers' queries small)
+            _c(qual).opts.setdefault("no_export", set()).add(fn.__name__)
+        if assumed:
+            # NOT discharged for the function itself: a stated assumption (with its reason), available to callers,
+            # listed in every evidence file that depends on it and monitored at run time
+            _c(qual).opts.setdefault("assumed", {})[fn.__name__] = assumed
         return fn
     return deco
 
@@ -159,14 +168,18 @@ def lemma(qual, at=None):
     return _reg("lemma", qual, at=at)
 
 
-def hint(qual, loop=None, when="head"):
+def hint(qual, loop=None, when="head", scoped=False, uses=()):
     """an assertion the verifier proves at the given point and may use afterwards (Dafny-style `assert`):
     loop=k, when='head' (after assuming the invariant) | 'end' (before re-establishing it) | 'exit';
     loop=None: before the postconditions at every return."""
     def deco(fn):
         c = _c(qual)
         c.funcs[fn.__name__] = fn
-        c.hints.setdefault((loop if loop is not None else "return", when), []).append(fn.__name__)
+        c.hints.setdefault((loop if loop is not None else ("entry" if when == "entry" else "return"), "head" if when == "entry" else when), []).append(fn.__name__)
+        if scoped:
+            c.opts.setdefault("scoped", set()).add(fn.__name__)
+        if uses:
+            c.opts.setdefault("uses", {})[fn.__name__] = list(uses)
         return fn
     return deco
 
@@ -357,3 +370,30 @@ def normal_size(k):
 
 def normal_result(k):
     return _GHOST["normal_calls"][k]["result"]
+
+
+def is_2d(a):
+    import numpy as np
+    return isinstance(a, np.ndarray) and a.ndim == 2
+
+
+def Class(qual):
+    return T("Class", qual)
+
+
+def min_of(a):
+    import numpy as np
+    return float(np.min(a))
+
+
+def max_of(a):
+    import numpy as np
+    return float(np.max(a))
+
+
+def _lemma_rt(*args):
+    """run-time reading of a lemma application: lemmas are proved statically, nothing to evaluate"""
+    return True
+
+
+SUM_NONNEG = SUM_POS = SUM_CONG = SUM_SPLIT = SUM_SHIFT = SUM_LIN = SUM_CONST = SUM_SCALE = ARR_MONO = MINMAX_EXT = _lemma_rt
